@@ -94,17 +94,40 @@ def wi(c, w):
 
 def bij_events(b, c1, c2, n1, n2, max_n=6):
     events = []
+
+    def has_reverse(spec):
+        from comb_spec_searcher.strategies.rule import EquivalencePathRule, EquivalenceRule, ReverseRule
+
+        def rev(r):
+            return isinstance(r, ReverseRule) or (isinstance(r, EquivalenceRule) and isinstance(r.original_rule, ReverseRule)) \
+                or (isinstance(r, EquivalencePathRule) and any(rev(x) for x in r.rules))
+
+        return any(rev(r) for r in spec.rules_dict.values())
+
+    # the library's documented refusal: a reverse rule (other than an equivalence) has no forward map, so a specification
+    # containing one cannot be parsed with; such a bijection is not mappable and its tables are not judged
+    unsupported = has_reverse(b.domain) or has_reverse(b.codomain)
     for n in range(max_n + 1):
         fwd, inv, failed = [], [], ""
         for w in c1.objects_of_size(n):
             try:
                 fwd.append([wi(c1, w), wi(c2, b.map(w))])
+            except NotImplementedError:
+                if unsupported:
+                    return []
+                failed = "map:NotImplementedError"
+                fwd.append([wi(c1, w), [-1]])
             except Exception as e:
                 failed = "map:" + type(e).__name__
                 fwd.append([wi(c1, w), [-1]])
         for v in c2.objects_of_size(n):
             try:
                 inv.append([wi(c2, v), wi(c1, b.inverse_map(v))])
+            except NotImplementedError:
+                if unsupported:
+                    return []
+                failed = failed or "inverse:NotImplementedError"
+                inv.append([wi(c2, v), [-1]])
             except Exception as e:
                 failed = failed or "inverse:" + type(e).__name__
                 inv.append([wi(c2, v), [-1]])
@@ -170,9 +193,13 @@ def pair_job(args):
 
     c1, _, se1 = mk_searcher(s1cfg, pk1, fl1)
     c2, _, se2 = mk_searcher(s2cfg, pk2, fl2)
+    if c1.is_empty() or c2.is_empty():
+        return None
     tid = "%s/%s/%s~%s/%s/%s" % (",".join(s1cfg[0]) + ":" + ":".join(s1cfg[1:]), pk1, fl1, ",".join(s2cfg[0]) + ":" + ":".join(s2cfg[1:]), pk2, fl2)
+    from ..session import scripted_time
     try:
-        sp1, sp2 = se1.auto_search(), se2.auto_search()
+        with scripted_time():
+            sp1, sp2 = se1.auto_search(), se2.auto_search()
     except Exception as e:
         return None
     events = [{"op": "check", "ab": tf(lambda: Isomorphism.check(sp1, sp2)), "ba": tf(lambda: Isomorphism.check(sp2, sp1))},
@@ -188,7 +215,10 @@ def pair_job(args):
     nb = 0
     if b is not None:
         nb = 1
-        events += bij_events(b, c1, c2, "A", "B")
+        bev = bij_events(b, c1, c2, "A", "B")
+        events += bev
+        if not bev:  # not mappable (a reverse rule in one of the specifications): nothing to compare after a reload either
+            return {"tid": tid, "classes": {"A": c1.desc(), "B": c2.desc()}, "events": events, "nbij": 0, "unsupported": True}
         try:
             b2 = Bijection.from_dict(json.loads(json.dumps(b.to_jsonable())))
             same_f = all(b2.map(w) == b.map(w) for n in range(6) for w in c1.objects_of_size(n))
@@ -213,8 +243,10 @@ def finder_job(args):
     ev = {"op": "finder", "kind": "none", "iso": "F", "bijection": False}
     spec_traces = []
     events = [ev]
+    from ..session import scripted_time
     try:
-        res = Finder(se1, se2).find()
+        with scripted_time():
+            res = Finder(se1, se2).find()
     except Exception as e:
         ev["kind"] = type(e).__name__ + ":" + str(e)[:120].replace("\n", " ")
         res = None
@@ -273,6 +305,19 @@ def run(tier: str, seed: int, pid="C12") -> int:
         # three-letter classes related by letter renamings: children of the root rule match by 3-cycles
         abc = [((a, pk1, "default"), (b, pk2, "default")) for a in ABC3 for b in ABC3 for pk1 in ("plain", "symcycle") for pk2 in ("plain",)]
         two3 = [((a[0], a[1], "default"), (b[0], b[1], "default")) for a, b in two3_pairs()[: (12 if tier == "quick" else 1000)]]
+        # the pair on which D14 was found (a remembered match that relied on a pair which later failed to match), and random
+        # pattern sets over three letters against their images under a letter renaming, all packs and rule databases
+        two3.append((((("aca", "bcc"), "abc"), "sym", "forget"), ((("acc", "bcb"), "abc"), "plain", "default")))
+        import itertools as it
+        from ..universes.words import swap_word, cycle_word
+        words = ["".join(w) for n in (1, 2, 3) for w in it.product("abc", repeat=n)]
+        r3 = random.Random(seed + 14)
+        for _ in range(160 if tier == "quick" else 3000):
+            P = tuple(sorted(r3.sample(words, r3.choice((1, 2, 2, 3)))))
+            Q = tuple(sorted(r3.choice((swap_word, cycle_word, lambda w: w))(p) for p in P))
+            packs3 = ("two", "twosym", "twocycle", "sym", "plain", "symcycle")
+            fls = ("default", "forest", "forget")
+            two3.append((((P, "abc"), r3.choice(packs3), r3.choice(fls)), ((Q, "abc"), r3.choice(packs3), r3.choice(fls))))
         res = [r for r in pmap(pair_job, mirrors + abc + two3 + unroll_pairs() + pairs, procs=16, chunk=2) if r]
         seen, traces = set(), []
         for r in res:
